@@ -1078,20 +1078,26 @@ class Builtins:
             return [(VVal(th.fn('id_of', th.Val, th.Val)(V(0)), kind='int'), st)]
         if name == 'clsref':
             return [(VClass(args[0].py[1]), st)]
-        if name in ('ret_make_converter', 'ret_into_data', 'ret'):
+        if name in ('ret_make_converter', 'ret_into_data', 'ret', 'retc'):
             from .ex_call import san_key
-            if name == 'ret':
+            if name in ('ret', 'retc'):
                 key, rest = args[0].py[1], list(args[1:])
             else:
                 key, rest = {'ret_make_converter': 'pane.convert:make_converter', 'ret_into_data': 'pane.convert:into_data'}[name], list(args)
             con = self.contracts.get(key)
             fi = self.idx.funcs.get(key)
+            if name == 'retc' and con is not None and fi is not None and not con.trusted and con.ensures:
+                # the value a call would return, together with what the callee's contract guarantees about it
+                f = VFunc(fi.node, {}, fi.module, fi.qualname)
+                oks = [(r, s2) for r, s2 in self.apply_contract(con, f, None, rest, {}, st, node) if not isinstance(r, Raised)]
+                if len(oks) == 1:
+                    st.pc[:] = oks[0][1].pc
+                    return [(oks[0][0], st)]
             a_ = fi.node.args
             pn = [p.arg for p in a_.posonlyargs + a_.args + a_.kwonlyargs]
             vals = [self.toVal(x, st) for x in rest]
             # missing trailing parameters take their declared defaults (evaluated like a call would)
             if len(vals) < len(pn):
-                f = VFunc(fi.node, {}, fi.module, fi.qualname)
                 env = self.bind_params(fi.node, rest, {}, st, module=fi.module)
                 vals = [self.toVal(env[p], st) for p in pn]
             t_ = th.fn('ret_' + san_key(key), *([th.Val] * len(vals)), th.Val)(*vals)
